@@ -544,6 +544,9 @@ func TestVerif_C20(t *testing.T) {
 		}
 		return
 	}
+	if r.IsReplay() {
+		return // a case of another unit (histories)
+	}
 
 	CheckChainID = true
 	config.DefConfig.P2PNode.EVMChainId = c19chain
